@@ -5,7 +5,7 @@ from c05 import base
 
 PID = "C11"
 ENTRIES_P = ENTRIES
-KINDS = ("plain", "ret", "bare", "fail", "retfail", "brk", "cont")
+KINDS = ("plain", "ret", "bare", "fail", "retfail", "brk", "cont", "retpriv")
 
 
 def make_cases(rng, tier, diff_here):
@@ -38,7 +38,7 @@ def make_cases(rng, tier, diff_here):
     n_rand = 250 if tier == "quick" else 6000
     pool = ENTRIES + diff_here * 9
     for _ in range(n_rand):
-        cases.append(rand_case(rng, rng.choice(pool), kinds=KINDS, weights=(2, 3, 2, 2, 2, 1, 1), maxk=6 if tier == "quick" else 10))
+        cases.append(rand_case(rng, rng.choice(pool), kinds=KINDS, weights=(2, 3, 2, 2, 2, 1, 1, 1), maxk=6 if tier == "quick" else 10))
     return cases
 
 
